@@ -293,6 +293,17 @@ def solve_one(ob, timeout_ms=10000, use_cvc5=True, cross=False, finite=True, ski
                             s2.add(a)
                     s2.add(z3.Not(ob.goal))
                     r2 = guarded_check(s2, min(timeout_ms, 5000))
+                    if r2 == z3.unknown:
+                        # weaker again: string operations z3 is incomplete on become uninterpreted (candidate only)
+                        from .instantiate import abstract_hard
+
+                        weak = abstract_hard([a for a in ob.assumptions if not has_quant(a)] + [z3.Not(ob.goal)])
+                        if weak is not None:
+                            s2 = z3.Solver()
+                            s2.set("timeout", min(timeout_ms, 5000))
+                            for f in weak:
+                                s2.add(f)
+                            r2 = guarded_check(s2, min(timeout_ms, 5000))
             if r2 == z3.sat:
                 ob.verdict = "refuted"
                 ob.via = "finite-instantiation"
